@@ -45,7 +45,9 @@ func C12() int {
 			logs[i].items = append(logs[i].items, rawItem("other", o, i))
 		}
 	}
-	fpairs := [][2]Flags{{{W: true}, {}}, {{W: true, N: true, B: true, I: true, R: sp("[x]")}, {N: true, B: true, I: true, R: sp("[x]")}}, {{W: true, Enc: true}, {Enc: true}}, {{W: true, F: "shop"}, {F: "shop"}}}
+	fpairs := [][2]Flags{{{W: true}, {}}, {{W: true, N: true, B: true, I: true, R: sp("[x]")}, {N: true, B: true, I: true, R: sp("[x]")}}, {{W: true, Enc: true}, {Enc: true}}, {{W: true, F: "shop"}, {F: "shop"}},
+		// selective mode leaves most values alone; namespaces are pseudonymised all the same
+		{{W: true, Z: "^(status|qty|name)$"}, {Z: "^(status|qty|name)$"}}, {{W: true, Z: "(?i)city|mail|nomatchatall", N: true}, {Z: "(?i)city|mail|nomatchatall", N: true}}}
 	cells := map[string]int{}
 	var cmu sync.Mutex
 	parallelDo(nlogs, func(li int) {
